@@ -76,3 +76,34 @@ def describe_run(lay, r, watch):
     if 'cells' in r:
         d['mem'] = {inv.get(a, str(a)): v for a, v in zip(watch, r['cells'])}
     return d
+
+
+def asm_size_problems(decl, funcs):
+    """decl: {tag: declared size} of the asm statements of the source (tags occur in their text);
+    funcs: {name: final lines}.  Every emitted inline-assembly line must carry the declared size of
+    the statement(s) whose tag it contains (pieces without a tag must be 0 bytes).  -> problems"""
+    import re
+    out = []
+    for fn, lines in funcs.items():
+        for k, l in enumerate(lines):
+            if l[0] != 'N':
+                continue
+            tags = re.findall(r'tg\d+', l[2])
+            want = sum(decl.get(t, 0) for t in tags)
+            got = l[1] if l[1] is not None else 3
+            if got != want:
+                out.append('%s line %d: inline assembly %r is recorded with %s bytes, the source declares %d' % (fn, k, l[2][:40], l[1], want))
+    return out
+
+
+def with_declared_asm_sizes(decl, lines):
+    """the same lines with every inline-assembly line given the size its source statement declares"""
+    import re
+    out = []
+    for l in lines:
+        if l[0] == 'N':
+            tags = re.findall(r'tg\d+', l[2])
+            if tags:
+                l = ('N', sum(decl.get(t, 0) for t in tags), l[2])
+        out.append(l)
+    return out
